@@ -451,7 +451,7 @@ func build(a API) (*built, error) {
 
 // buildFresh builds a server (analyzed document, untyped API, middleware.Context, router) that has served nothing yet.
 func buildFresh(a API, raw []byte) (*built, error) {
-	ld, err := loads.Analyzed(json.RawMessage(raw), "")
+	ld, err := loads.Embedded(json.RawMessage(raw), json.RawMessage(raw)) // (Analyzed gob-clones the document: 10x slower)
 	if err != nil {
 		return nil, err
 	}
@@ -611,6 +611,17 @@ func source(a Arg, cleanup *[]string) (runtime.NamedReadCloser, error) {
 	return runtime.NamedReader(a.FileName, bytes.NewReader(content[off:])), nil
 }
 
+// errText is the client's error, for diagnosis only
+func errText(err error) string {
+	if err == nil {
+		return ""
+	}
+	if t := err.Error(); len(t) > 200 {
+		return t[:200]
+	}
+	return err.Error()
+}
+
 func mediaName(mt string) string {
 	switch mt {
 	case mJSON:
@@ -629,7 +640,7 @@ func execute(c *drv.Ctx, d M) bool {
 	cs := caseFrom(d)
 	noEvent := func(i int, st Step) {
 		c.W.Event("exchange", M{"step": i + 1, "op": st.Op, "media": mediaName(st.Media), "supplied": []M{}, "setup": false, "err": true, "handled_op": "", "received": []M{},
-			"handler": M{"code": 0, "hdrs": []M{}, "body": ""}, "seen": M{"code": 0, "hdrs": []M{}, "body": ""}, "wire_path": []int{}, "wire_query": []int{}})
+			"handler": M{"code": 0, "hdrs": []M{}, "body": ""}, "seen": M{"code": 0, "hdrs": []M{}, "body": ""}, "wire_path": []int{}, "wire_query": []int{}, "err_text": []int{}})
 	}
 	var b *built
 	var err error
@@ -785,7 +796,7 @@ func exchangeOnce(c *drv.Ctx, rt *client.Runtime, idx int, st *Step, op *Op) boo
 			default:
 				var v any
 				if err := cons.Consume(bytes.NewReader(raw), &v); err != nil {
-					return nil, err
+					return nil, fmt.Errorf("status %d content type %q body %.80q: %w", resp.Code(), ct, raw, err)
 				}
 				canon = canonJSON(v)
 			}
@@ -818,7 +829,7 @@ func exchangeOnce(c *drv.Ctx, rt *client.Runtime, idx int, st *Step, op *Op) boo
 	}()
 	cur.mu.Lock()
 	ev := M{"step": idx + 1, "op": st.Op, "media": mediaName(st.Media), "supplied": supplied, "setup": true, "err": callErr != nil, "handled_op": cur.handledOp, "received": cur.received,
-		"handler": cur.handler, "seen": seen, "wire_path": trace.B(cur.wirePath), "wire_query": trace.B(cur.wireQuery)}
+		"handler": cur.handler, "seen": seen, "wire_path": trace.B(cur.wirePath), "wire_query": trace.B(cur.wireQuery), "err_text": trace.B(errText(callErr))}
 	cur.mu.Unlock()
 	if ev["received"] == nil || len(ev["received"].([]M)) == 0 {
 		ev["received"] = []M{}
